@@ -216,6 +216,23 @@ impl Exec {
             std::thread::sleep(std::time::Duration::from_millis(2));
         }
         let tb = Utc::now();
+        // should the code under test take the whole process down (stack overflow, abort), the driver finds the event
+        // of the run that was in flight here and appends it to the trace
+        {
+            let mut pe = ev.clone();
+            pe.insert("out".into(), json!("crash: the harness process died during this run"));
+            pe.insert("outk".into(), json!("crash"));
+            pe.insert("ok".into(), json!(false));
+            pe.insert("tb".into(), json!(ms(tb, epoch)));
+            pe.insert("ta".into(), json!(ms(tb, epoch)));
+            pe.insert("k0".into(), json!(pre.keys().collect::<Vec<_>>()));
+            pe.insert("k1".into(), json!(pre.keys().collect::<Vec<_>>()));
+            pe.insert("ch".into(), json!([]));
+            pe.insert("i".into(), json!(self.idx + 1));
+            self.out.flush().map_err(|e| e.to_string())?;
+            std::fs::write(format!("{}.pending", self.seg), serde_json::to_vec(&Value::Object(pe)).map_err(|e| e.to_string())?)
+                .map_err(|e| e.to_string())?;
+        }
         let h = spawn_reader_thread(args.clone(), planes);
         // a reader that never returns is data too ("fails to terminate"): wait with a deadline
         let limit_ms: u64 = std::env::var("SQV_RUN_TIMEOUT_MS").ok().and_then(|v| v.parse().ok()).unwrap_or(10000)
